@@ -8,6 +8,8 @@ def stages(tier):
          "timeout": 300, "timeout_thorough": 1800},
         {"name": "e2e", "cmd": "fresh", "args": ["-prop", "C03"], "check": "Check.FreshHistory.check_hist_c03",
          "timeout": 300, "timeout_thorough": 1800},
+        {"name": "lockwait", "cmd": "cachesched", "args": ["-prop", "C03"], "check": "a lookup that waits for the entry's lock past the entry's expiry reports it stale (forced schedule at the cache API, direct)",
+         "timeout": 120, "timeout_thorough": 300},
     ]
 
 TRUSTED = [
